@@ -450,6 +450,7 @@ func c20SameMux(c *Ctx) {
 	_ = isHead
 	nlinks := 0
 	okLinks := true
+	var badLinks []string
 	for _, fh := range frontHandlers(c) {
 		for _, st := range storesToField(start, fh.Next) {
 			nlinks++
@@ -457,6 +458,7 @@ func c20SameMux(c *Ctx) {
 			for s := range sourcesOf(st.Val) {
 				if s == nil {
 					okLinks = false
+					badLinks = append(badLinks, "possibly unassigned at "+c.relPos(st.Pos()))
 					continue
 				}
 				if isFieldLoad(s, fDb) {
@@ -472,11 +474,12 @@ func c20SameMux(c *Ctx) {
 				}
 				if !isFront {
 					okLinks = false
+					badLinks = append(badLinks, fmt.Sprintf("%v (%T) at %s", s, s, c.relPos(st.Pos())))
 					c.Note("chain link source not understood: %v at %s", s, c.relPos(st.Pos()))
 				}
 			}
 		}
 	}
-	c.Check(rule, fnName(start)+"|chain-links", okLinks && nlinks >= 4, start.Pos(), fmt.Sprintf("%d Next links; each points to the database handler or to a front handler placed before it", nlinks))
+	c.Check(rule, fnName(start)+"|chain-links", okLinks && nlinks >= 4, start.Pos(), fmt.Sprintf("%d Next links; each points to the database handler or to a front handler placed before it; not understood: %v", nlinks, badLinks))
 	c.Floor(rule, 6)
 }
